@@ -699,7 +699,6 @@ func c12skipPredicate(c *core.Check) {
 		return
 	}
 	info := c.Prog.Pkg("generator").TypesInfo
-	_ = info
 	// the outer loop and its item variable
 	var outer *ast.ForStmt
 	ast.Inspect(fd.Body, func(n ast.Node) bool {
@@ -718,6 +717,10 @@ func c12skipPredicate(c *core.Check) {
 		return
 	}
 	idx := rules.ExprString(inc.X)
+	sliceName := "files"
+	if ps := fd.Type.Params.List; len(ps) >= 2 && len(ps[len(ps)-1].Names) == 1 {
+		sliceName = ps[len(ps)-1].Names[0].Name
+	}
 	item := ""
 	for _, s := range outer.Body.List {
 		if as, ok := s.(*ast.AssignStmt); ok && len(as.Lhs) == 1 && len(as.Rhs) == 1 {
@@ -730,12 +733,21 @@ func c12skipPredicate(c *core.Check) {
 	// attach predicate: the first if of the body that tests the item
 	norm := func(e ast.Expr) string {
 		t := rules.ExprString(e)
+		// abstract every element of a []*plugin.Generated, whatever the slice is called
+		ast.Inspect(e, func(n ast.Node) bool {
+			if ix, ok := n.(*ast.IndexExpr); ok {
+				if tv, ok := info.Types[ix]; ok && strings.HasSuffix(tv.Type.String(), "plugin.Generated") {
+					t = strings.ReplaceAll(t, rules.ExprString(ix), "ITEM")
+				}
+			}
+			return true
+		})
 		// abstract the item: `f` or files[<any index>]
 		var b strings.Builder
 		for i := 0; i < len(t); {
-			if strings.HasPrefix(t[i:], "files[") {
+			if strings.HasPrefix(t[i:], sliceName+"[") {
 				d := 0
-				j := i + len("files")
+				j := i + len(sliceName)
 				for ; j < len(t); j++ {
 					if t[j] == '[' {
 						d++
@@ -798,8 +810,8 @@ func c12skipPredicate(c *core.Check) {
 				split(be.Y)
 				return
 			}
-			if strings.Contains(rules.ExprString(e), "files[") && strings.Contains(rules.ExprString(e), "(") {
-				tests = append(tests, norm(e))
+			if nt := norm(e); strings.Contains(nt, "ITEM") && strings.Contains(nt, "(") {
+				tests = append(tests, nt)
 			}
 		}
 		split(fs.Cond)
